@@ -324,6 +324,9 @@ OPS = [PROBE, FRONT, BACK, GRID]
 COUPLANT = c.Material(1480.0, None, 1000.0, "liquid", metadata={"long_name": "Water"})
 BLOCK = c.Material(6320.0, 3130.0, 2700.0, "solid", metadata={"long_name": "Aluminium"})
 UNDER = c.Material(340.0, None, 1.2, "liquid", metadata={"long_name": "Air"})
+# (the declared under-material is what the back wall reflects against, whatever its state of matter says)
+UNDER_VARIANTS = [UNDER, c.Material(340.0, density=1.2, metadata={"long_name": "Air, state not declared"}),
+                  c.Material(2700.0, 1100.0, 1180.0, "solid", metadata={"long_name": "Perspex backing"})]
 MATS = [COUPLANT, BLOCK, UNDER]
 
 
@@ -383,6 +386,15 @@ def cpath(e):
 SETUPS = [[0, 0], [0, 1]] + [[1, fw, bw, um] for fw in (0, 1) for bw in (0, 1) for um in (0, 1)]
 
 
+def pick_under(s, r):
+    """the under-material of this configuration (liquid, state of matter not declared, or solid); MATS[2] follows it so
+    that `reflection_against` is identified as 'the under-material given to the call'"""
+    global UNDER
+    UNDER = UNDER_VARIANTS[(sum(int(x) for x in s) + int(r)) % len(UNDER_VARIANTS)]
+    MATS[2] = UNDER
+    chk.count(under_material=UNDER.metadata["long_name"])
+
+
 def exam_object(s):
     if s[0] == 0:
         return c.BlockInImmersion(BLOCK, COUPLANT, FRONT, BACK if s[1] else None)
@@ -391,6 +403,7 @@ def exam_object(s):
 
 def impl_paths(s, r):
     """make_interfaces + make_paths through the public functions"""
+    pick_under(s, r)
     if s[0] == 0:
         d = bim.make_interfaces(COUPLANT, PROBE, FRONT, BACK if s[1] else None, GRID)
         return bim.make_paths(BLOCK, COUPLANT, d, r)
@@ -401,6 +414,7 @@ def impl_paths(s, r):
 
 def impl_views(s, r, uo):
     mod = bim if s[0] == 0 else bic
+    pick_under(s, r)
     return mod.make_views(exam_object(s), PROBE, GRID, max_number_of_reflection=r, tfm_unique_only=uo)
 
 
@@ -538,6 +552,7 @@ keys_sr = sorted(good_paths)
 for _ in range(24 if Q else 400):
     s, r = keys_sr[int(rng.integers(len(keys_sr)))]
     paths = good_paths[(s, r)]
+    pick_under(s, r)              # the under-material these paths were built with
     avail = list(paths)
     kind = rng.choice(["closed", "closed", "closed", "open"])
     if kind == "closed":
@@ -723,6 +738,7 @@ def do_path_reverse(p, kind):
 
 
 for (s, r), paths in sorted(good_paths.items()):
+    pick_under(s, r)
     if Q and r != 2 and not (s[0] == 1 and s[3] == 1) and s != (0, 1):
         continue
     for k, p in paths.items():
